@@ -331,6 +331,7 @@ def shard(ctx: Ctx) -> None:
     sweep.same_turn_pairs_sweep(ctx, PROP)
     sweep.stalled_connect_sweep(ctx, PROP)
     sweep.high_water_sweep(ctx, PROP)
+    sweep.deadline_sweep(ctx, PROP)
     sweep.reconnect_in_on_stop_sweep(ctx, PROP)
     sweep.abandoned_disconnect_sweep(ctx, PROP)
     sweep.connect_fault_sweep(ctx, PROP)
